@@ -63,6 +63,11 @@ pub enum SVal {
     /// left out, the others are written)
     MapRecover(Vec<(SVal, SVal)>),
     StructRecover(Vec<(&'static str, SVal)>),
+    /// a sequence / tuple / tuple variant announcing a length that is not the number of elements
+    /// it then writes (a size hint is a hint; huge announced lengths must not be trusted)
+    SeqHint(usize, Vec<SVal>),
+    TupleHint(usize, Vec<SVal>),
+    TupleVariantHint(usize, Vec<SVal>),
 }
 
 impl Serialize for SVal {
@@ -162,6 +167,27 @@ impl Serialize for SVal {
                 s.serialize_bool(hr)
             }
             SVal::Fail => Err(serde::ser::Error::custom("injected failure")),
+            SVal::SeqHint(hint, v) => {
+                let mut q = s.serialize_seq(Some(*hint))?;
+                for x in v {
+                    q.serialize_element(x)?;
+                }
+                q.end()
+            }
+            SVal::TupleHint(hint, v) => {
+                let mut q = s.serialize_tuple(*hint)?;
+                for x in v {
+                    q.serialize_element(x)?;
+                }
+                q.end()
+            }
+            SVal::TupleVariantHint(hint, v) => {
+                let mut q = s.serialize_tuple_variant("E", 2, "TV", *hint)?;
+                for x in v {
+                    q.serialize_field(x)?;
+                }
+                q.end()
+            }
             SVal::MapRecover(v) => {
                 let mut q = s.serialize_map(None)?;
                 for (k, x) in v {
@@ -289,7 +315,8 @@ fn image(v: &SVal) -> Img {
         SVal::Some(x) | SVal::NewtypeStruct(x) => image(x),
         SVal::UnitVariant(n) => Img::Ok(RV::Str(n.to_string())),
         SVal::NewtypeVariant(n, x) => tagged(n, image(x)),
-        SVal::Seq(v) | SVal::Tuple(v) | SVal::TupleStruct(v) | SVal::CollectSeq(v) => seq(v),
+        SVal::Seq(v) | SVal::Tuple(v) | SVal::TupleStruct(v) | SVal::CollectSeq(v) | SVal::SeqHint(_, v) | SVal::TupleHint(_, v) => seq(v),
+        SVal::TupleVariantHint(_, v) => tagged("TV", seq(v)),
         SVal::CollectStr(s) => Img::Ok(RV::Str(s.clone())),
         // a Value is a readable structure like JSON: the text form is the faithful image
         SVal::Ip(a) => Img::Ok(RV::Str(a.to_string())),
@@ -370,7 +397,7 @@ fn json_representable(v: &SVal) -> bool {
         SVal::Map(e) | SVal::CollectMap(e) => e.iter().all(|(k, x)| matches!(k, SVal::Str(_) | SVal::Ip(_) | SVal::Bool(_) | SVal::I8(_) | SVal::I16(_) | SVal::I32(_) | SVal::I64(_) | SVal::U8(_) | SVal::U16(_) | SVal::U32(_) | SVal::U64(_) | SVal::Char(_) | SVal::UnitVariant(_)) && json_representable(x)),
         SVal::Struct(f) | SVal::StructVariant(_, f) => f.iter().all(|(_, x)| json_representable(x)),
         SVal::StructSkip(f) => f.iter().all(|(_, x, skip)| *skip || json_representable(x)),
-        SVal::Fail | SVal::MapRecover(_) | SVal::StructRecover(_) => false,
+        SVal::Fail | SVal::MapRecover(_) | SVal::StructRecover(_) | SVal::SeqHint(..) | SVal::TupleHint(..) | SVal::TupleVariantHint(..) => false,
         _ => true,
     }
 }
@@ -433,6 +460,9 @@ fn kind_name(v: &SVal) -> &'static str {
         SVal::Ip(_) => "ip_addr",
         SVal::HumanReadableProbe => "human_readable_probe",
         SVal::Fail => "fail",
+        SVal::SeqHint(..) => "seq_with_length_hint",
+        SVal::TupleHint(..) => "tuple_with_length_hint",
+        SVal::TupleVariantHint(..) => "tuple_variant_with_length_hint",
         SVal::MapRecover(_) => "map_recovering",
         SVal::StructRecover(_) => "struct_recovering",
     }
@@ -613,6 +643,17 @@ fn cases(tier: Tier) -> Vec<SVal> {
         v.push(SVal::Struct(vec![("m", SVal::Map(vec![(k.clone(), SVal::I8(1))]))]));
     }
     v.push(SVal::Map(vec![(SVal::Str("d".into()), SVal::I8(1)), (SVal::Str("d".into()), SVal::I8(2))]));
+    // announced lengths that are not the number of elements written: too small, too large, and so
+    // large that allocating them up front cannot succeed (only hints beyond isize::MAX bytes are
+    // used for that: a smaller huge hint would abort the process instead of panicking)
+    for hint in [0usize, 1, 2, 7, usize::MAX, usize::MAX / 2, 1 << 59] {
+        for items in [vec![], vec![SVal::I8(1)], vec![SVal::Fail], vec![SVal::I8(1), SVal::Str("s".into())], vec![SVal::I8(1), SVal::Fail], vec![SVal::U128(u128::MAX)]] {
+            v.push(SVal::SeqHint(hint, items.clone()));
+            v.push(SVal::TupleHint(hint, items.clone()));
+            v.push(SVal::TupleVariantHint(hint, items.clone()));
+            v.push(SVal::Struct(vec![("f", SVal::SeqHint(hint, items.clone()))]));
+        }
+    }
     // impls that go on after a failing entry: every pattern of failing values / refused keys over 1..4 entries
     for n in 1..=4usize {
         for pattern in 0..3usize.pow(n as u32) {
